@@ -601,7 +601,9 @@ impl Xot {
         if !self.is_element(node) {
             return Err(Error::NotElement(node));
         };
-        let mut fullname_serializer = FullnameSerializer::new(self, vec![]);
+        // the xml prefix is always bound
+        let mut fullname_serializer =
+            FullnameSerializer::new(self, vec![(self.xml_prefix(), self.xml_namespace())]);
         let mut missing_namespace_ids = HashSet::default();
         for edge in self.traverse(node) {
             match edge {
@@ -802,7 +804,9 @@ impl Xot {
     /// defined for them in the context of the node are reported.
     pub fn unresolved_namespaces(&self, node: Node) -> Vec<NamespaceId> {
         let mut namespaces = Vec::new();
-        let mut fullname_serializer = FullnameSerializer::new(self, vec![]);
+        // the xml prefix is always bound
+        let mut fullname_serializer =
+            FullnameSerializer::new(self, vec![(self.xml_prefix(), self.xml_namespace())]);
         for edge in self.traverse(node) {
             match edge {
                 NodeEdge::Start(node) => {
